@@ -443,9 +443,30 @@ def correspondence(rng, tier):
         + wavelet_cases(rng, tier)
 
 
-LEVEL_TEXT = 'partial (to be written)'
-LEVEL_NOTE = ''
-TECHNIQUE = 'Coq proof (algebra over an abstract commutative ring, list induction) + in-Coq differential correspondence'
+LEVEL_TEXT = ('Partial proof. Proved in Coq for ALL sizes/shapes/axes lists/shift patterns/signs: reciprocal_grid has '
+              'stride 2pi/(n s) and its points are (k - n/2)D resp. (k - (n-1)/2)D in every parity x shift x half-complex '
+              'case; realspace_grid(reciprocal_grid(g)) = g in N dimensions; the frequencies used by '
+              'dft_postprocess_data equal the grid points times s/2pi in every case; Fourier inversion of the naive DFT '
+              'over any commutative ring without zero divisors for every length (primitive root, geometric sum), hence '
+              'inverse(forward(x)) = x for the ODL-normalised DFT along any axes list of an N-d array, for the '
+              'half-complex pair rfftn/irfftn on real arrays (even and odd last axis, Hermitian symmetry), and for '
+              'FourierTransform/FourierTransformInverse (pre/post phase factors and interpolation kernel cancel; kernel '
+              'shown non-zero) on complex spaces, on real spaces, and half-complex with all axes shifted; wavelet '
+              'unflatten(flatten(c)) = c for every coefficient structure, reconstruction length n + n mod 2 through any '
+              'number of levels for every even filter length, and the crop rule restores n without raising. The '
+              'executable model (naive sums, exact rationals + fixed-point cos/sin) agrees with NumPy-FFT/FFTW/ODL entry '
+              'by entry on every branch incl. the error outcomes. Not proved (probed only): equality with NumPy, '
+              'back-end agreement, Gaussian convergence, PyWavelets filter banks, the wavelet adjoint identity.')
+LEVEL_NOTE = ('9 findings recorded (findings/C18.json): real-space DFT with pyfftw returns zeros on the first call; inverse '
+              'DFT onto real spaces raises (pyfftw) / ignores impl; numpy half-complex inverse fails for odd lengths; '
+              'pyfftw half-complex N-d inverse destroys its input; FT real+unshifted pyfftw inverse raises; FT '
+              'half-complex with an unshifted non-last axis silently wrong/raises; wavelet adjoint wrong for odd level '
+              'lengths and for pad_mode=periodic; dmey is not perfect-reconstruction (external). The status functions of '
+              'the model carry measured variant switches so neither the defects nor their repair break the check. '
+              'Trusted: exact-arithmetic idealisation, C18/CisQ.v cos/sin approximation, NumPy/FFTW/PyWavelets numerics. '
+              'Axioms: classical reals + functional extensionality as printed by Print Assumptions.')
+TECHNIQUE = ('Coq proof (algebra over an abstract commutative ring, list induction on flat N-d arrays, real analysis for '
+             'the true cos/sin) + in-Coq differential correspondence at Q + property probes')
 
 
 # =================================================================== probes
